@@ -594,6 +594,96 @@ impl C14 {
     }
 }
 
+impl C14 {
+    /// the panic of `s` (in its first run) is caught by the custom controller `p` of the batch that
+    /// directly holds `s`, around the inner dispatch; the controller then carries on
+    fn one_caught_fault(&self, b: &mut Built, s: usize, p: usize, point: u8, entry: Entry) -> Result<(), Fail> {
+        let flat = b.flat.clone();
+        let world = fresh_world();
+        b.ctx.reset_counters();
+        b.ctx.reset_states();
+        b.ctx.ctl_caught.store(0, SeqCst);
+        b.ctx.ctl_catch.store(true, SeqCst);
+        b.ctx.fault[s].store(point, SeqCst);
+        b.ctx.fault_run[s].store(1, SeqCst);
+        let out = run_call(b, &world, entry, None, Duration::from_millis(3000));
+        b.ctx.fault[s].store(FAULT_NONE, SeqCst);
+        b.ctx.fault_run[s].store(0, SeqCst);
+        let where_ = format!(
+            "[armed {:?} at point {} of its first run, entry {:?}; the controller {} of its batch catches the panic of the inner dispatch and carries on]",
+            flat.sys[s].sid(),
+            point,
+            entry,
+            flat.sys[p].sid()
+        );
+        let finish = |b: &mut Built, r: Result<(), Fail>| {
+            b.ctx.ctl_catch.store(false, SeqCst);
+            r
+        };
+        if let Some(pl) = &out.panic {
+            return finish(b, Err(Fail::new(format!(
+                "a panic reached the caller of dispatch although the batch controller caught it: {} {}",
+                describe_panic(pl),
+                where_
+            ))));
+        }
+        let caught = b.ctx.ctl_caught.load(SeqCst);
+        if caught != 1 {
+            return finish(b, Err(Fail::new(format!(
+                "the controller caught {} panics of its inner dispatches, expected exactly 1 {}",
+                caught, where_
+            ))));
+        }
+        let runs = b.ctx.runs();
+        let exp = expected_runs(&flat, 1, 1);
+        let inside: BTreeSet<usize> = flat.descendants(p).into_iter().collect();
+        let inner_dispatches = exp[p] * flat.sys[p].ctl.as_ref().map(|c| c.times()).unwrap_or(0) as u32;
+        for y in 0..flat.sys.len() {
+            let (lo, hi) = if inside.contains(&y) && inner_dispatches > 0 {
+                // one inner dispatch (the one that panicked) may be incomplete
+                (exp[y] - exp[y] / inner_dispatches, exp[y])
+            } else {
+                (exp[y], exp[y])
+            };
+            if runs[y] < lo || runs[y] > hi {
+                return finish(b, Err(Fail::new(format!(
+                    "system {} ran {} times in a dispatch whose only panic was caught inside a batch, expected {}..={} {}",
+                    flat.sys[y].sid(),
+                    runs[y],
+                    lo,
+                    hi,
+                    where_
+                ))));
+            }
+        }
+        if let Err(f) = check_all_free(&world) {
+            return finish(b, Err(Fail::new(format!("{} {}", f.msg, where_))));
+        }
+        for round in 0..2 {
+            b.ctx.reset_counters();
+            b.ctx.ctl_caught.store(0, SeqCst);
+            let out2 = run_call(b, &world, entry, None, Duration::from_millis(3000));
+            if let Some(pl) = &out2.panic {
+                return finish(b, Err(Fail::new(format!(
+                    "dispatch {} after a panic caught inside a batch panicked: {} {}",
+                    round + 1,
+                    describe_panic(pl),
+                    where_
+                ))));
+            }
+            if let Err(f) = check_counts(&flat, &b.ctx.runs(), &exp) {
+                return finish(b, Err(Fail::new(format!(
+                    "dispatch {} after a panic caught inside a batch: {} {}",
+                    round + 1,
+                    f.msg,
+                    where_
+                ))));
+            }
+        }
+        finish(b, check_all_free(&world))
+    }
+}
+
 fn tl_or_below_tl(flat: &Flat, s: usize) -> bool {
     // only top-level thread-local systems are skipped by dispatch_par / dispatch_seq
     flat.sys[s].is_tl && flat.sys[s].parent.is_none()
@@ -608,7 +698,7 @@ impl Prop for C14 {
         "C14"
     }
     fn rule(&self) -> &'static str {
-        "small generated plans (<= 10 ops, batches, thread-locals); ENUMERATED per plan: every system (each position of each group and stage, thread-local, controller, inside batches) as the panicking one x fault point {before its fetch, inside run, after its release} x {dispatch (parallel), dispatch_seq + thread-local, RunNow::run_now} x (for systems inside batches that dispatch k >= 2 times, incl. MultiDispatcher batches: also the fault in the last and the second of its runs) x sibling phase forced by the conductor {panicking system first = siblings before their fetch, maximal overlap = siblings inside run, panicking system last = siblings released}; pairs variant: two systems of one stage armed at once; oracle: catch_unwind(dispatch) is Err with the HarnessFault payload of an armed system, no counter above 1 x enclosing dispatch counts, no transitive dependent ran, afterwards every cell probes free and the next unarmed dispatch runs everything exactly once; evaluations = fault points; non-trivial = plan with >= 2 groups in a stage or a dependency edge; distinct = plan hash"
+        "small generated plans (<= 10 ops, batches, thread-locals); ENUMERATED per plan: every system (each position of each group and stage, thread-local, controller, inside batches) as the panicking one x fault point {before its fetch, inside run, after its release} x {dispatch (parallel), dispatch_seq + thread-local, RunNow::run_now} x (for systems inside batches that dispatch k >= 2 times, incl. MultiDispatcher batches: also the fault in the last and the second of its runs; for systems directly inside a batch with a custom controller: also with that controller catching the panic around its inner dispatch and carrying on - then dispatch must return normally, everything outside the batch runs exactly once, inside it at most one inner dispatch is incomplete) x sibling phase forced by the conductor {panicking system first = siblings before their fetch, maximal overlap = siblings inside run, panicking system last = siblings released}; pairs variant: two systems of one stage armed at once; oracle: catch_unwind(dispatch) is Err with the HarnessFault payload of an armed system, no counter above 1 x enclosing dispatch counts, no transitive dependent ran, afterwards every cell probes free and the next unarmed dispatch runs everything exactly once; evaluations = fault points; non-trivial = plan with >= 2 groups in a stage or a dependency edge; distinct = plan hash"
     }
     fn gen(&self, src: &mut Src) -> C14Case {
         let threads = if self.cfg.max_ops > 12 {
@@ -633,6 +723,7 @@ impl Prop for C14 {
         let n = flat.sys.len();
         let mut points = 0u64;
         let mut later_points = 0u64;
+        let mut caught_points = 0u64;
         C14_DEGRADED.with(|d| d.set(false));
         if self.pairs {
             // two systems of one stage, different groups, at once
@@ -708,10 +799,22 @@ impl Prop for C14 {
                             }
                         }
                     }
+                    // the panic is caught inside the batch, by the controller around its inner dispatch
+                    if let Some(p) = flat.sys[s].parent {
+                        let custom = matches!(flat.sys[p].ctl, Some(crate::plan::Ctl::Custom { n }) if n >= 1);
+                        if custom && per_dispatch >= 1 {
+                            for entry in [Entry::SeqTl, Entry::Dispatch] {
+                                self.one_caught_fault(&mut b, s, p, point, entry)?;
+                                points += 1;
+                                caught_points += 1;
+                            }
+                        }
+                    }
                 }
             }
         }
         st.class_n("fault_points_in_a_later_inner_dispatch", later_points);
+        st.class_n("fault_points_caught_by_the_batch_controller", caught_points);
         st.eval(points.saturating_sub(1));
         st.class_n("fault_points", points);
         let dep_in_group = b.layouts.by_bid.values().any(|l| {
